@@ -191,6 +191,20 @@ def check_C11(tier):
                 res.add_sample(slim(rec, 8), 3)
     res.distinct = nt
     res.extra["library_calls"] = calls
+    # reproducibility of the clustering stage on its own: point sets with exact ties (equal-size groups in one
+    # Hough bin, repeated points, duplicates) are clustered three times, once on another thread; only the
+    # `not-repeatable` clause of Trace_Reco counts here
+    tr3 = os.path.join(BUILD, "traces", "C11_reco.ndjson")
+    res.evaluations += run_vh(["reco", "--seed", str(seed()), "--tier", tier], tr3, timeout=7200)
+    for k, part in enumerate(split_file(tr3, 4000)):
+        checked, mism, _ = tlc_validate("Trace_Reco", part, "C11_reco_%d" % k)
+        res.traces += checked
+        recs = fetch_records(part, [m[0] for m in mism if m[1] == "not-repeatable"])
+        for m in mism:
+            if m[1] == "not-repeatable":
+                rec = recs.get(m[0], {"i": m[0]})
+                res.report({"family": "cluster", "clause": "not-repeatable", "kind": rec.get("kind"), "case": rec.get("case")},
+                           slim(rec, 8), "not-repeatable")
     if tier == "thorough":
         rec = json.loads(open(trace).readline())
         rec["runs"][-1][3] = "0000000000000000"
